@@ -48,6 +48,7 @@ def run(tier, seed):
     # define / undefine / lookup sequences
     n = 120 if tier == "quick" else 2500
     names = ["a", "b", "c"]
+    op_lists = []
     for i in range(n):
         ops = []
         for _ in range(rng.range(3, 10)):
@@ -59,6 +60,7 @@ def run(tier, seed):
             elif k == 4: ops.append(f"(whereis '{nm})")
             else: ops.append(f"(export '({nm}))")
         progs.append(" ".join(ops))
+        op_lists.append(ops)
     # loads with fault injection; the current module is observed afterwards
     loads = []
     m = 150 if tier == "quick" else 3000
@@ -71,6 +73,37 @@ def run(tier, seed):
     sets = [ProgramSet("defs", progs), ProgramSet("loads", loads)]
     run_sets(rep, sets)
     crashes_and_hangs(rep, sets)
+    # monitor on the binary, against the property's own reference (a set of defined names; export lists play no role):
+    # define on a defined name signals already-defined and changes nothing, on a free name it answers ok; undefine frees the name
+    import re as _re
+    redefined = 0
+    for ops, r, prog, ans in zip(op_lists, sets[0].parsed, progs, sets[0].answers):
+        if "special" in r or len(r["results"]) != len(ops):
+            continue
+        defined = {}
+        for op, (st, d) in zip(ops, r["results"]):
+            md = _re.match(r"\(eval \(trap \(define '(\w+) (\d+)", op)
+            mu = _re.match(r"\(undefine '(\w+)\)", op)
+            ml = _re.match(r"\(eval \(trap (\w+) 'unbound\)\)", op)
+            try:
+                shown = dump.show(dump.parse_dump(d)) if st == "ok" else st
+            except dump.Truncated:
+                continue
+            if md:
+                nm, val = md.group(1), md.group(2)
+                if nm in defined:
+                    if "already-defined" not in shown:
+                        redefined += 1
+                        if redefined <= 2:
+                            rep.violation(f"define on the already defined name {nm} answered {shown} instead of signalling already-defined: {prog}", {"program": prog, "observed": ans[:400]})
+                else:
+                    if shown != "ok":
+                        rep.violation(f"define on the free name {nm} answered {shown}: {prog}", {"program": prog, "observed": ans[:400]})
+                    defined[nm] = val
+            elif mu:
+                defined.pop(mu.group(1), None)
+            elif ml and ml.group(1) in defined and shown not in (defined[ml.group(1)], "unbound"):
+                rep.violation(f"the constant {ml.group(1)} was defined as {defined[ml.group(1)]} but evaluates to {shown}: {prog}", {"program": prog, "observed": ans[:400]})
     # monitor on the binary: current module after the load = current module before
     not_restored = 0
     for i, r in enumerate(sets[1].parsed):
